@@ -99,10 +99,15 @@ def shards(tier, seed):
     for be in ('cudd', 'autoref'):
         for i in range(len(WIDE)):
             out.append(dict(decl='wide', backend=be, pred='wide', pair=i))
+        out.append(dict(decl='graph', backend=be, pred='graph'))
     return out
 
 
 def cases(shard):
+    if shard['pred'] == 'graph':
+        for i in range(len(GRAPH_RELS)):
+            yield dict(graph=i, backend=shard['backend'])
+        return
     if shard['pred'] == 'wide':
         yield dict(wide=shard['pair'], backend=shard['backend'])
         return
@@ -153,7 +158,10 @@ class Ops:
 def run_case(case, acc):
     ops = Ops(acc, case)
     try:
-        if 'wide' in case:
+        if 'graph' in case:
+            _run_graph(case, ops)
+            nontrivial = True
+        elif 'wide' in case:
             _run_wide(case, ops)
             nontrivial = True
         elif case.get('rename'):
@@ -244,6 +252,21 @@ def _run_pred(case, ops):
         got = ctx.let(dict(zip(V, r)), u)
         ops.check('let_full', (got == ctx.true) == (r in T) and
                   got in (ctx.true, ctx.false), point=r)
+    # ---- the empty assignment is TRUE; a repeated name in a list of care
+    # variables counts once
+    ops.check('assign_from', ctx.assign_from(dict()) == ctx.true,
+              point='empty assignment')
+    supp_ = sorted(ctx.support(u))
+    if supp_:
+        dup = supp_ + [supp_[0]]
+        try:
+            n_dup = ctx.count(u, care_vars=dup)
+            n_it = len(list(ctx.pick_iter(u, care_vars=dup)))
+        except Exception as exc:  # noqa
+            ops.check('count', False, care=dup, raised=repr(exc)[:200])
+        else:
+            ops.check('count', n_dup == n_it == ctx.count(
+                u, care_vars=set(dup)), care=dup, count=n_dup, yielded=n_it)
     # ---- assign_from
     for r in space:
         got = rd.table(ctx.assign_from(dict(zip(V, r))))
@@ -357,6 +380,70 @@ def _check_pick(ctx, u, T, V, idx, rngs, dep, care, ops):
                     good = False
                     break
         ops.check('pick', good, care=care, got=p)
+
+
+# relations enumerated as graphs, with and without care sets for the source
+# and the target nodes
+GRAPH_RELS = ["(x' = x) /\\ (b' <=> ~ b)", "(x' > x) \\/ (b /\\ ~ b')",
+              "(x' = 3 - x) /\\ (y' = y)", "(y' < y) /\\ (b' <=> b)",
+              "x' # x"]
+GRAPH_CARE = [None, "x <= 1", "b", "(x # 2) \\/ ~ b", "y = -1", "TRUE"]
+
+
+def _run_graph(case, ops):
+    """`enumeration.relation_to_graph`: the edges are exactly the pairs of
+    assignments in the relation with the source in `care_source` and the
+    target in `care_target`."""
+    import omega.symbolic.enumeration as enm
+    import omega.symbolic.temporal as trl
+    aut = trl.Automaton()
+    if case['backend'] == 'autoref':
+        import dd.autoref
+        aut.bdd = dd.autoref.BDD()
+    aut.declare_variables(x=(0, 3), y=(-2, -1), b='bool')
+    names = ['x', 'y', 'b']
+    pn = [n + "'" for n in names]
+    e = GRAPH_RELS[case['graph']]
+    u = aut.add_expr(e)
+    A = ro.Reader(aut, names + pn).table(u)
+    srd = ro.Reader(aut, names)
+    space = srd.space()
+    for cs, ct in itertools.product(GRAPH_CARE, GRAPH_CARE):
+        if (cs is None) != (ct is None):
+            continue      # the care relation needs both
+        S = set(space) if cs is None else srd.table(aut.add_expr(cs))
+        T = set(space) if ct is None else srd.table(aut.add_expr(ct))
+        exp = {r for r in A if r[:3] in S and r[3:] in T}
+        # enumerate over every bit, so that each node is a full valuation
+        # (the function looks every variable up in every model)
+        bits = [b for n in names + pn for b in ro.bits_of(aut, n)]
+        kw = dict(care_bits=bits)
+        if cs is not None:
+            kw.update(care_source=aut.add_expr(cs),
+                      care_target=aut.add_expr(ct))
+        if not exp:
+            continue
+        try:
+            g = enm.relation_to_graph(u, aut, **kw)
+        except AssertionError:
+            raise
+        got = set()
+        for a, b_ in g.edges():
+            src, tgt = g.nodes[a], g.nodes[b_]
+            # a node may carry a partial valuation (variables the relation
+            # does not constrain): it stands for all its completions
+            for s_ in space:
+                if any(k in src and src[k] != v
+                       for k, v in zip(names, s_)):
+                    continue
+                for t_ in space:
+                    if any(k in tgt and tgt[k] != v
+                           for k, v in zip(names, t_)):
+                        continue
+                    got.add(s_ + t_)
+        ops.check('relation_to_graph', got == exp, relation=e,
+                  care_source=cs, care_target=ct,
+                  extra=sorted(got - exp)[:4], missing=sorted(exp - got)[:4])
 
 
 # variables of 11-13 bits (bit names with two-digit indices): one variable
